@@ -299,6 +299,18 @@ def enum_deep(tier):
                 body = b''.join(chunks)
                 raw = R.encode_message(1, 3, {1: '/a', 3: 'M'}, little=little, extra_fields=[(8, 'g', sig)], raw_body=body)
                 yield {'kind': 'raw', 'hex': raw.hex(), 'depth': k}
+    # a SIGNATURE header field that is not of type SIGNATURE (sent as a plain STRING it escapes the 255-character limit of
+    # its type): long signatures whose every element costs work proportional to the signature, over a consistent body
+    for k in (200, 1000, 3000):
+        shapes = {
+            'a(y()...)': ('a(y' + '()' * k + ')', (8 * k).to_bytes(4, 'little') + b'\0' * 4 + (b'\x01' + b'\0' * 7) * k),
+            'ay*k': ('ay' * k, b''.join(b'\0\0\0\0' for _ in range(k))),
+            'y*k': ('y' * (4 * k), b'\x07' * (4 * k)),
+        }
+        for name, (sig, body) in sorted(shapes.items()):
+            for ftype in ('s', 'o'):
+                raw = R.encode_message(1, 3, {1: '/a', 3: 'M'}, little=True, extra_fields=[(8, ftype, sig)], raw_body=body)
+                yield {'kind': 'raw', 'hex': raw.hex(), 'depth': k}
     # chains of variants whose signatures hold MORE than one complete type (the specification forbids it, no encoder
     # writes it, a lenient decoder may tolerate it): consistent all the way down, byte-aligned so that nothing needs padding
     for k in (4, 10, 16, 22, 28, 40):
